@@ -460,6 +460,26 @@ func (e *Exec) cover(label string) {
 // extractOracle solves pc ∧ extra and evaluates every nondet site.
 func (e *Exec) extractOracle(extra ...*smt.Term) (map[string]interface{}, error) {
 	p := e.path
+	// prefer small models: bound every input length, relax if unsat
+	for _, lim := range []uint64{2, 8, 40} {
+		var small []*smt.Term
+		for _, ns := range p.nondets {
+			switch ns.Kind {
+			case "bytes", "string":
+				small = append(small, smt.ULe(ns.Len, smt.Const(lim, 64)))
+			case "atom":
+				small = append(small, smt.ULe(strlenOf(ns.Term), smt.Const(lim+20, 64)))
+			}
+		}
+		if len(small) == 0 {
+			break
+		}
+		s := e.script(append(append([]*smt.Term{}, extra...), small...)...)
+		if r, _, err := e.solver.Check(s.String(), nil); err == nil && r == smt.Sat {
+			extra = append(append([]*smt.Term{}, extra...), small...)
+			break
+		}
+	}
 	s := e.script(extra...)
 	// phase 1: scalars and lengths
 	var q []string
